@@ -242,3 +242,36 @@ def classify(exc: BaseException, text: str, stage: str, root: str) -> Tuple[str,
     if stage == "render:py" and isinstance(exc, IndexError) and "impls/py/formatter.py" in frame and EMPTY_ENUM_RE.search(text):
         return bucket, "D3"
     return bucket, None
+
+
+@st.composite
+def tower_texts(draw: Any) -> Tuple[str, str]:
+    """Sharing towers: level k names level k-1 TWO OR THREE times (fields, array elements, alias elements), 2..48 levels.  The
+    schema text is linear in the number of levels while the expanded structure is exponential; sizes stay 0 when the bottom
+    level occupies no bits (valid schema) and explode past every limit otherwise (a parser error is the expected outcome).
+    Whatever is computed per definition must not be re-computed per path."""
+    levels = draw(st.integers(2, 48))
+    fan = draw(st.sampled_from([2, 2, 3]))
+    leaf = draw(st.sampled_from(["empty", "empty", "empty_ext", "bool", "enum1", "empty_nested"]))
+    shape = draw(st.sampled_from(["fields", "fields", "arrays", "alias_rows", "mixed"]))
+    out = ["proto tower", ""]
+    if leaf == "empty":
+        out += ["message Level0 {", "}"]
+    elif leaf == "empty_ext":
+        out += ["message Level0' {", "}"]
+    elif leaf == "bool":
+        out += ["message Level0 {", "    bool on = 1", "}"]
+    elif leaf == "enum1":
+        out += ["enum Bit : uint1 {", "    BIT_OFF = 0", "    BIT_ON = 1", "}", "message Level0 {", "    Bit bit = 1", "}"]
+    else:
+        out += ["message Level0 {", "    message Hollow {", "    }", "    Hollow hollow = 1", "}"]
+    for k in range(1, levels + 1):
+        prev = f"Level{k - 1}"
+        how = shape if shape != "mixed" else ["fields", "arrays", "alias_rows"][(k + levels) % 3]
+        if how == "alias_rows":
+            out += [f"type Row{k} = {prev}[{fan}]", f"message Level{k} {{", f"    Row{k} rows = 1", "}"]
+        elif how == "arrays":
+            out += [f"message Level{k} {{", f"    {prev}[{fan}] items = 1", "}"]
+        else:
+            out += [f"message Level{k} {{"] + [f"    {prev} part_{chr(97 + j)} = {j + 1}" for j in range(fan)] + ["}"]
+    return "\n".join(out) + "\n", f"tower:{leaf}+{shape}+levels{'_ge20' if levels >= 20 else '_lt20'}"
